@@ -282,10 +282,14 @@ def check_c02(case, vd):
 # ------------------------------------------------------------------ strategies
 
 _chars = st.characters(min_codepoint=1, max_codepoint=0x10FFFF, exclude_categories=("Cs",))
+SPECIAL_CP = ["\ufeff", "\ufffe", "\uffff", "\x01", "\x7f", "\x80", "\u07ff", "\u0800", "\ud7ff", "\ue000", "\ufffd",
+              "\U00010000", "\U0010FFFF", "\u200b", "\u0301", "\u202e", " ", "\t", "\n", "#", "+", "$"]
 _unit = st.one_of(
     st.text(alphabet=_chars, min_size=1, max_size=5),
-    st.sampled_from(["a", "é", "€", "\U0001F600", "aé€\U0001F600", "/", "ñ/€", "\x7f", "߿ࠀ",
-                     "￿", "\U00010000", "\U0010FFFF", "퟿"]),
+    st.sampled_from(["a", "\u00e9", "\u20ac", "\U0001F600", "a\u00e9\u20ac\U0001F600", "/", "\u00f1/\u20ac", "\x7f", "\u07ff\u0800",
+                     "\uffff", "\U00010000", "\U0010FFFF", "\ud7ff"]),
+    # boundary code points (BOM, non-characters, first/last of each UTF-8 width, zero-width, bidi) leading the string
+    st.builds(lambda a, b: a + b, st.sampled_from(SPECIAL_CP), st.sampled_from(["", "a", "\u00e9/\u20ac"])),
 )
 LEN_CLASSES = [0, 1, 2, 3, 23, 24, 126, 127, 128, 129, 255, 256, 16383, 16384, 65534, 65535]
 
